@@ -186,6 +186,60 @@ Fixpoint run_ops (s : st) (ops : list op) : st * list out :=
               let '(s2, us) := run_ops s1 t in (s2, u :: us)
   end.
 
+(* ------------------------------------------------------------------ --estimate-return *)
+(* With mcount_estimate_return no return address is hijacked and no exit hook runs for -pg/PLT frames:
+   __mcount_entry / __plthook_entry only push a frame, after mcount_rstack_inject_return() has closed
+   (with an estimated exit time) every frame whose slot is not above the new one's.  Stack addresses grow
+   downwards: a larger slot number is a LOWER address; `parent_loc > frame_pointer` is `floc f < l`.
+   __cygprof_entry passes the frame pointer ~0UL. *)
+Fixpoint pop_while (l : nat) (fs : list frame) : list frame :=
+  match fs with
+  | [] => []
+  | f :: t => if Nat.eqb (floc f) DUMMY then fs
+              else if Nat.ltb (floc f) l then fs
+              else pop_while l t
+  end.
+Fixpoint pop_until_dummy (fs : list frame) : list frame :=
+  match fs with
+  | [] => []
+  | f :: t => if Nat.eqb (floc f) DUMMY then fs else pop_until_dummy t
+  end.
+Definition inject_return (fp : option nat) (fs : list frame) : list frame :=
+  match fs with
+  | [] => []
+  | f :: t =>
+      match fp with
+      | Some l => if (kind_eqb (fkind f) KP && Nat.ltb (floc f) l)%bool then t   (* PLT sibling in the same module *)
+                  else pop_while l fs
+      | None => pop_until_dummy fs
+      end
+  end.
+
+Definition enter_est (k : kind) (l : nat) (s : st) : st :=
+  mkSt (mem s) (mkF l (mem s l) k false :: inject_return (Some l) (rs s)).
+Definition enter_cyg_est (parent : nat) (s : st) : st :=
+  mkSt (mem s) (mkF DUMMY (Real parent) KC false :: inject_return None (rs s)).
+
+Definition run_op_est (s : st) (o : op) : st * out :=
+  match o with
+  | OPush l a => (mkSt (upd (mem s) l (Real a)) (rs s), UNone)
+  | OEnter HNone _ => (s, UNone)
+  | OEnter (HM _) l => (enter_est KM l s, UNone)        (* the `recover` trigger is ignored in this mode *)
+  | OEnter HP l => (enter_est KP l s, UNone)
+  | OEnter HC l => (enter_cyg_est l s, UNone)
+  | OCygExit => (exit_cyg s, UNone)
+  | ORet l | ORetStop l =>
+      (* the function returns through whatever its slot holds: nothing ever put a trampoline there *)
+      (s, URet 0 (mem s l))
+  end.
+
+Fixpoint run_ops_est (s : st) (ops : list op) : st * list out :=
+  match ops with
+  | [] => (s, [])
+  | o :: t => let '(s1, u) := run_op_est s o in
+              let '(s2, us) := run_ops_est s1 t in (s2, u :: us)
+  end.
+
 (* ------------------------------------------------------------------ programs as call trees *)
 (* One activation: its return address, the hook its entry met (HNone: not instrumented, filtered out,
    or beyond the depth limit), the calls it makes, and the functions it then tail-calls (they run
@@ -224,6 +278,19 @@ Fixpoint no_plt (c : call) : bool :=
   | Call _ h kids tails =>
       (match h with HP => false | _ => true end) && forallb no_plt kids && forallb no_plt tails
   end.
+
+(* ------------------------------------------------------------------ threads *)
+(* struct mcount_thread_data (mtd) is thread-local and every thread has its own stack: a multi-threaded
+   run is a schedule of (thread, operation) pairs over one shadow state per thread *)
+Definition tupd (ss : nat -> st) (t : nat) (s : st) : nat -> st := fun x => if Nat.eqb x t then s else ss x.
+Fixpoint run_sched (ss : nat -> st) (sched : list (nat * op)) : (nat -> st) * list (nat * out) :=
+  match sched with
+  | [] => (ss, [])
+  | (t, o) :: r => let '(s1, u) := run_op (ss t) o in
+                   let '(ss2, us) := run_sched (tupd ss t s1) r in (ss2, (t, u) :: us)
+  end.
+Definition proj {A} (t : nat) (l : list (nat * A)) : list A :=
+  map snd (filter (fun p => Nat.eqb (fst p) t) l).
 
 (* ------------------------------------------------------------------ checker used by the tie *)
 (* On observed outputs (from libmcount itself): every return went where the native program's
